@@ -99,7 +99,7 @@ def main():
             {"name": "vf_sched", "path": "harness/vf_sched.c", "serves_properties": ["C02", "C08", "C09", "C10", "C14"], "kind_free_text": "schedule controller"},
         ],
         "checks": checks,
-        "notes": "Runtime monitoring and sanitizers only. See DESIGN.md; known_findings.json lists the genuine defects found: F1-F18 repaired by fix: commits in /repo, K1 (C03, debug builds) and K2 (C10, tagged heap delete) recorded as known findings; seeded/ holds 99 confirmed seeded changes and the outcome of the checks against them.",
+        "notes": "Runtime monitoring and sanitizers only. See DESIGN.md; known_findings.json lists the genuine defects found: F1-F30 repaired by fix: commits in /repo; K1 (C03, debug builds), K2 (C10: blocks of a deleted heap that could not be merged, freed by the same thread) and K3 (C13/C10: forced abandonment takes pages away from first-class heaps) recorded as known findings and exercised by dedicated cases; seeded/ holds 99 confirmed seeded changes and the outcome of the checks against them.",
         "not_applicable": na,
     }
     with open(os.path.join(VERIF, "MANIFEST.json"), "w") as fh:
